@@ -1,57 +1,123 @@
-// Contract harness for commit_changes_with_height_update on the REAL storage stack
-// (Database<OnChain> -> StructuredStorage -> StorageTransaction -> MemoryStore), symbolic heights.
+// Contract harness for commit_changes_with_height_update (real code, generic instance GasPriceDatabase / OnChain).
+// The storage engine behind the database (`Arc<dyn TransactableStorage>`) is a recording mock: what is proved is the
+// decision of the function and exactly what it hands to the engine. (An earlier version ran the real MemoryStore
+// underneath; CBMC did not finish in 30 min - kept as harness.memorystore.attempt.rs.txt, not run.)
 use super::*;
 use crate::database::database_description::{on_chain::OnChain, gas_price::GasPriceDatabase};
+use fuel_core_storage::{iter::{BoxedIter, IntoBoxedIter, IterDirection, IterableStore}, kv_store::{KVItem, KeyItem, KeyValueInspect, StorageColumn, Value, WriteOperation}};
+use crate::state::TransactableStorage;
 //@ include pred.rs
 
 fn lock_slow_stub(_m: &parking_lot::RawMutex, _t: Option<std::time::Instant>) -> bool { panic!("contended lock in single-threaded harness") }
 fn unlock_slow_stub(_m: &parking_lot::RawMutex, _f: bool) { panic!("contended unlock in single-threaded harness") }
 fn fixed_random_state() -> std::hash::RandomState { unsafe { core::mem::zeroed() } }
 
+static mut G_CALLS: u32 = 0;
+static mut G_HEIGHT: Option<u32> = None;     // the height handed to the engine
+static mut G_LIST_LEN: usize = 0;            // number of change sets handed to the engine
+static mut G_META_WRITES: u32 = 0;           // metadata inserts found in the last change set
+static mut G_META_HEIGHT: Option<u32> = None; // height recorded in that metadata
+static mut G_FAIL: bool = false;             // engine answers Err
+static mut G_LOCK_HELD: bool = false;        // reported-height lock held while the engine commits
+
+struct MockEngine<D>(core::marker::PhantomData<D>);
+impl<D> core::fmt::Debug for MockEngine<D> { fn fmt(&self, _f: &mut core::fmt::Formatter<'_>) -> core::fmt::Result { Ok(()) } }
+impl<D: DatabaseDescription> KeyValueInspect for MockEngine<D> {
+    type Column = D::Column;
+    // the engine holds no metadata yet (first commit writes it)
+    fn get(&self, _key: &[u8], _column: Self::Column) -> StorageResult<Option<Value>> { Ok(None) }
+}
+impl<D: DatabaseDescription> IterableStore for MockEngine<D> {
+    fn iter_store(&self, _c: Self::Column, _p: Option<&[u8]>, _s: Option<&[u8]>, _d: IterDirection) -> BoxedIter<'_, KVItem> { core::iter::empty().into_boxed() }
+    fn iter_store_keys(&self, _c: Self::Column, _p: Option<&[u8]>, _s: Option<&[u8]>, _d: IterDirection) -> BoxedIter<'_, KeyItem> { core::iter::empty().into_boxed() }
+}
+impl<D> TransactableStorage<D::Height> for MockEngine<D>
+where D: DatabaseDescription<Height = BlockHeight>
+{
+    fn commit_changes(&self, height: Option<D::Height>, changes: StorageChanges) -> StorageResult<()> {
+        unsafe {
+            G_CALLS += 1;
+            G_HEIGHT = height.map(|h| *h);
+            let last = match &changes {
+                StorageChanges::Changes(c) => { G_LIST_LEN = 1; Some(c) }
+                StorageChanges::ChangesList(l) => { G_LIST_LEN = l.len(); l.last() }
+            };
+            if G_LIST_LEN == 2 {
+                if let Some(c) = last {
+                    for (col, tree) in c.iter() {
+                        if *col == D::metadata_column().id() {
+                            for (_k, op) in tree.iter() {
+                                if let WriteOperation::Insert(v) = op {
+                                    G_META_WRITES += 1;
+                                    let m: core::result::Result<DatabaseMetadata<BlockHeight>, postcard::Error> = postcard::from_bytes(v.as_ref());
+                                    if let Ok(ref m) = m { G_META_HEIGHT = Some(**m.height()); }
+                                    core::mem::forget(m);
+                                }
+                            }
+                        }
+                    }
+                }
+            }
+            core::mem::forget(changes);
+            if G_FAIL { Err(fuel_core_storage::Error::NotFound("mock", "mock")) } else { Ok(()) }
+        }
+    }
+    fn view_at_height(&self, _h: &D::Height) -> StorageResult<KeyValueView<D::Column, D::Height>> { Err(fuel_core_storage::Error::NotFound("mock", "mock")) }
+    fn latest_view(&self) -> StorageResult<IterableKeyValueView<D::Column, D::Height>> { Err(fuel_core_storage::Error::NotFound("mock", "mock")) }
+    fn rollback_block_to(&self, _h: &D::Height) -> StorageResult<()> { Ok(()) }
+}
+
 macro_rules! height_harness {
     ($desc:ty) => {{
-        let mut db = Database::<$desc>::in_memory();
-        let commit = |db: &mut Database<$desc>, n: u8, a: u32, b: u32| -> bool {
-            let r = commit_changes_with_height_update(db, Changes::default(), move |_| {
-                Ok(match n {
-                    0 => vec![],
-                    1 => vec![BlockHeight::from(a)],
-                    _ => vec![BlockHeight::from(a), BlockHeight::from(b)],
-                })
-            });
-            let ok = r.is_ok();
-            core::mem::forget(r);
-            ok
-        };
-        let reported = |db: &Database<$desc>| -> Option<u32> { (*db.stage.height.lock()).map(|h| *h) };
-        let stored = |db: &Database<$desc>| -> Option<u32> { db.latest_height_from_metadata().unwrap().map(|h| *h) };
-        // arbitrary previous height: none, or established by one earlier commit
+        // arbitrary previous (reported) height
         let prev_some: bool = kani::any();
         let prev: u32 = kani::any();
-        if prev_some {
-            let ok0 = commit(&mut db, 1, prev, 0);
-            kani::assert(ok0, "[C09.db-height.commit.first-height-accepted-into-empty-database]");
-        }
-        kani::assert(reported(&db) == (if prev_some { Some(prev) } else { None }), "[C09.db-height.commit.reported-height-is-first-commit]");
+        let engine: Arc<MockEngine<$desc>> = Arc::new(MockEngine(core::marker::PhantomData));
+        let mut db: Database<$desc> = Database::from_storage_and_metadata(
+            DataSource::new(engine, RegularStage { height: SharedMutex::new(if prev_some { Some(BlockHeight::from(prev)) } else { None }) }),
+            Some(Empty::default()),
+        );
+        unsafe { G_FAIL = kani::any(); }
         let n: u8 = kani::any();
         kani::assume(n <= 2);
         let a: u32 = kani::any();
         let b: u32 = kani::any();
-        let ok = commit(&mut db, n, a, b);
+        let r = commit_changes_with_height_update(&mut db, Changes::default(), move |_| {
+            Ok(match n {
+                0 => vec![],
+                1 => vec![BlockHeight::from(a)],
+                _ => vec![BlockHeight::from(a), BlockHeight::from(b)],
+            })
+        });
+        let ok = r.is_ok();
+        core::mem::forget(r);
+        let reported: Option<u32> = (*db.stage.height.lock()).map(|h| *h);
+        let (calls, eng_height, list_len, meta_writes, meta_height, fail) = unsafe { (G_CALLS, G_HEIGHT, G_LIST_LEN, G_META_WRITES, G_META_HEIGHT, G_FAIL) };
         let allowed = commit_allowed(prev_some, prev, n, a);
         kani::cover!(ok && prev_some, "[C09.db-height.commit.cover-linked-commit]");
-        kani::cover!(!ok && prev_some && n == 1, "[C09.db-height.commit.cover-unlinked-rejected]");
-        kani::assert(ok == allowed, "[C09.db-height.commit.accepted-iff-single-height-linked-to-previous]");
+        kani::cover!(!ok && prev_some && n == 1 && !fail, "[C09.db-height.commit.cover-unlinked-rejected]");
+        kani::cover!(!ok && allowed && fail, "[C09.db-height.commit.cover-engine-failure]");
+        // accepted exactly when it carries no height into a height-less database, a first height, or the successor of the previous height - and the engine took it
+        kani::assert(ok == (allowed && !fail), "[C09.db-height.commit.accepted-iff-single-height-linked-to-previous]");
+        // a rejected commit never reaches the storage engine; an allowed one reaches it exactly once
+        kani::assert(calls == (if allowed { 1 } else { 0 }), "[C09.db-height.commit.engine-sees-only-linked-commits-once]");
+        // reported height: the new height after a successful commit that carried one, otherwise unchanged
         let expect = if ok && n == 1 { Some(a) } else if prev_some { Some(prev) } else { None };
-        kani::assert(reported(&db) == expect, "[C09.db-height.commit.reported-height-is-last-committed-and-unchanged-on-failure]");
-        kani::assert(stored(&db) == expect, "[C09.db-height.commit.stored-metadata-height-equals-reported-height]");
+        kani::assert(reported == expect, "[C09.db-height.commit.reported-height-is-last-committed-and-unchanged-on-failure]");
+        if allowed {
+            // the engine is told the same height that becomes the reported one, in the same atomic batch that rewrites the metadata to that height
+            kani::assert(eng_height == (if n == 1 { Some(a) } else { None }), "[C09.db-height.commit.engine-is-given-the-new-height]");
+            if n == 1 {
+                kani::assert(list_len == 2 && meta_writes == 1 && meta_height == Some(a), "[C09.db-height.commit.stored-metadata-height-equals-reported-height]");
+            } else {
+                kani::assert(list_len == 1, "[C09.db-height.commit.no-metadata-write-without-height]");
+            }
+        }
         core::mem::forget(db);
     }};
 }
 
-// The function is generic over the database description; the quick tier proves it for the gas-price database
-// (4 columns, BlockHeight heights - the same height type as the on-chain database), the thorough tier for OnChain.
-//@ harness kind=proof tier=quick timeout=1800 extra="--default-unwind 8"
+//@ harness kind=proof tier=quick timeout=900 extra="--default-unwind 8"
 #[kani::proof]
 #[kani::stub(parking_lot::RawMutex::lock_slow, lock_slow_stub)]
 #[kani::stub(parking_lot::RawMutex::unlock_slow, unlock_slow_stub)]
@@ -60,7 +126,7 @@ fn c09_commit_height_gas_price_db() {
     height_harness!(GasPriceDatabase)
 }
 
-//@ harness kind=proof tier=thorough timeout=7200 extra="--default-unwind 45"
+//@ harness kind=proof tier=thorough timeout=3600 extra="--default-unwind 8"
 #[kani::proof]
 #[kani::stub(parking_lot::RawMutex::lock_slow, lock_slow_stub)]
 #[kani::stub(parking_lot::RawMutex::unlock_slow, unlock_slow_stub)]
